@@ -454,8 +454,15 @@ def run(ctx):
                             "M_v = max(M_d, key=M__)", "M_v = min(M_d, key=M__)",
                             "M_v = sorted(M_d, key=M__)[M__]"], fr.node)
         if not hits:
-            ctx.bad("R7", "longest-cycle selection in " + q, fr.where(),
-                    "no selection of the maximum-latency cycle found", q, "selection missing")
+            # the selection used in place (e.g. `entry = d[max(d, key=...)]`): only its direction can be judged
+            inplace = [n for n in ast.walk(fr.node) if isinstance(n, ast.Call) and isinstance(n.func, ast.Name)
+                       and n.func.id in ("max", "min", "sorted") and "['latency']" in U(n)]
+            wrong = [n for n in inplace if n.func.id == "min"]
+            for n in wrong:
+                ctx.node_bad("R7", fr, n, "the LCD figure is taken from `%s`: not a maximum-latency cycle" % U(n)[:80])
+            if not wrong:
+                ctx.unknown("R7", "longest-cycle selection in " + q, fr.where(),
+                            "no statement `v = max(dict, key=latency)` found (%d selection(s) used in place)" % len(inplace))
             continue
         for n, b in hits:
             good = any(pm.match(pat, n) is not None for pat in (
@@ -481,7 +488,8 @@ def run(ctx):
     # LCD column members come from the selected entry
     cv = ctx.func("Frontend.combined_view")
     col = pm.find("M_l = {M_i.line_number: M_lat for M_i, M_lat in M_d[M_v]['dependencies']}", cv.node)
-    ctx.check(len(col) == 1, "R7", "LCD column = members of the selected cycle", cv.where(),
+    col_any = [n for n in ast.walk(cv.node) if isinstance(n, ast.DictComp) and "['dependencies']" in U(n)]
+    ctx.judge(len(col) == 1, not col_any or len(col) > 1, "R7", "LCD column = members of the selected cycle", cv.where(),
               "the LCD column is not filled from the 'dependencies' of the selected cycle", cv.qname,
               "lcd_lines construction")
 
